@@ -162,7 +162,7 @@ PROPS = {
     "C04": {"ready": True, "partial": PARTIAL_D1 + "; the end-to-end theorem sim_run_covered_partial (simulated run after the snapshot is covered by an Ok exploration) assumes fault rates zero, no crash/recover after the snapshot, exact time arithmetic (finding D16 is where f64 breaks it) and goal/prune only at states without pending events; with positive rates or crashes the inclusion is checked on the implementation (simulated walks) only",
             "replay": sim_replay, "suites": [snapshot_check(walk=10, routes=False, fp=True)]},
     "C05": {"ready": True, "replay": auto_replay,
-            "suites": [sim("sim_network", "C05", dict(p_fault=0.6, p_link=0.6, p_crash=0.1, nodes=(2, 3), procs=(2, 4)),
+            "suites": [sim("sim_network", "C05", dict(p_fault=0.6, p_link=0.6, p_crash=0.3, nodes=(2, 3), procs=(2, 4)),
                            nontrivial=lambda st: st["received"] and (st["faults_on"] or st["links"]),
                            extra=lambda rng, tier: [(f"lm{i}", sim_suite.gen_link_matrix(rng)) for i in range(300 if tier == "quick" else 6000)]),
                        mc("mc_links", dict(p_link=0.7, p_fault=0.2, nodes=(2, 3), procs=(2, 4), p_send=0.6, p_timer=0.1), refenum=True, n_quick=100, n_thorough=1500,
@@ -188,7 +188,7 @@ PROPS = {
     "C02": {"ready": True, "partial": PARTIAL_D1, "replay": mc_checks.replay,
             "suites": [mc("mc_paths", dict(collect_always=True, depth=(2, 4), caches=("full", "disabled")), refenum=True)]},
     "C03": {"ready": True, "partial": PARTIAL_D1, "replay": mc_checks.replay,
-            "suites": [mc("mc_exhaustive", dict(depth=(2, 4), staged=0.25, p_link=0.3), refenum=True, cross=mc_checks.COMBOS, n_quick=250)]},
+            "suites": [mc("mc_exhaustive", dict(depth=(2, 4), staged=0.25, p_link=0.3, p_fault=0.45, p_send=0.5), refenum=True, cross=mc_checks.COMBOS, n_quick=250)]},
     "C07": {"ready": True, "partial": PARTIAL_D1, "replay": mc_checks.replay,
             "suites": [mc("mc_timers", dict(p_timer=0.45, p_send=0.25, p_local=0.05, p_cancel=0.25, p_once=0.35, same_timer_name=0.35, record=0.8,
                                             depth=(3, 5), acts=(1, 4), rules=(2, 5), locals=(1, 3), p_fault=0.05, caches=("disabled", "full")),
